@@ -1,28 +1,4 @@
 #!/bin/sh
-# Applies every C18 mutant to a scratch worktree of /repo (with the proposed C18 fix applied
-# first when /repo does not contain it yet) and expects ./check C18 to report VIOLATIONs.
-# usage: sh selftest/C18/run_mutants.sh [mutant-name ...]
-HERE="$(cd "$(dirname "$0")/../.." && pwd)"
-WT=$(mktemp -d /tmp/wt_C18_mut.XXXXXX)
-rmdir "$WT"
-git -C /repo worktree add --detach "$WT" HEAD >/dev/null 2>&1 || exit 2
-trap 'git -C /repo worktree remove --force "$WT" >/dev/null 2>&1' EXIT
-FIX="$HERE/proposed_fixes/C18_range_keeps_id_text.patch"
-ONFIX=0
-if git -C "$WT" apply --check "$FIX" 2>/dev/null; then git -C "$WT" apply "$FIX"; ONFIX=1; fi
-if grep -q "footer_int" "$WT/pmutt/cantera/__init__.py"; then ONFIX=1; fi
-git -C "$WT" diff > "$WT.base.diff"
-NAMES="$*"
-[ -z "$NAMES" ] && NAMES=$(ls "$HERE"/selftest/C18/*.patch | xargs -n1 basename | sed 's/\.onfix\.patch$//; s/\.patch$//' | sort -u)
-RC=0
-for n in $NAMES; do
-  P="$HERE/selftest/C18/$n.patch"
-  [ $ONFIX = 1 ] && [ -f "$HERE/selftest/C18/$n.onfix.patch" ] && P="$HERE/selftest/C18/$n.onfix.patch"
-  git -C "$WT" apply "$P" || { echo "MUTANT $n: patch does not apply"; RC=2; continue; }
-  OUT=$(cd "$HERE" && VERIF_REPO="$WT" ./check C18 --tier quick 2>&1)
-  CL=$(echo "$OUT" | grep '^VIOLATION' | sed 's/.*clause=//' | sort | uniq -c | tr '\n' ' ')
-  if echo "$OUT" | grep -q '^VIOLATION'; then echo "MUTANT $n: CAUGHT  $CL"; else echo "MUTANT $n: MISSED"; echo "$OUT" | tail -3; RC=1; fi
-  git -C "$WT" apply -R "$P"
-done
-rm -f "$WT.base.diff"
-exit $RC
+# Applies every C18 mutant (selftest/C18/*.patch) to a scratch worktree of /repo and expects
+# ./check C18 to report VIOLATIONs.  Same as:  /venv/bin/python tools/selftest.py C18
+cd "$(dirname "$0")/../.." && exec /venv/bin/python tools/selftest.py C18 "$@"
